@@ -13,7 +13,7 @@ from genlib import *
 
 LEAN_MODULES = ["MpirProofs.Props.C04_allocsafe7"]
 THEOREMS = ["Mpir.AllocSafe7." + t for t in (
-    "mpf_set_dest_safe", "mpf_set_ui_dest_safe", "mpf_set_si_dest_safe", "mpf_set_z_dest_safe", "mpf_mul_ui_dest_safe", "mpf_add_dest_safe_partial", "mpf_mul_2exp_dest_safe", "mpf_div_2exp_dest_safe")]
+    "mpf_set_dest_safe", "mpf_set_ui_dest_safe", "mpf_set_si_dest_safe", "mpf_set_z_dest_safe", "mpf_mul_ui_dest_safe", "mpf_add_dest_safe", "mpf_add_dest_wf", "mpf_mul_2exp_dest_safe", "mpf_div_2exp_dest_safe")]
 TRUSTED = ["hand-written index-checked models lean/Mpir/Model/AllocSafeMpf7.lean (mpf/set.c, set_ui.c, set_si.c, set_z.c, mul_ui.c, add.c, mul_2exp.c, div_2exp.c; "
            "mpn_lshift / mpn_rshift at value level: the n + 1 limbs of up * 2^k as in Mpf.shiftUp; "
            "mpn_add / mpn_mul_1 + carry-in at value level as in the C13 model Mpir/Model/Mpf.lean; MPN_COPY_INCR with rp <= up = all loads, then all stores), "
